@@ -472,13 +472,12 @@ class Inliner(object):
             v = binding[p]
             if p in stored or p in comp_targets or not _simple_arg(v):
                 tgt = p
-                if p in taken and not (isinstance(v, ast.Name) and v.id == p):
+                if p in taken:
+                    # the caller (or an argument) uses this name: the helper's parameter needs its own variable
                     tgt = p + '_'
                     while tgt in taken or tgt in stored:
                         tgt += '_'
-                    taken.add(tgt)
-                if isinstance(v, ast.Name) and v.id == tgt:
-                    continue
+                taken.add(tgt)
                 rename[p] = tgt
                 pre.append(ast.copy_location(ast.Assign(targets=[ast.Name(id=tgt, ctx=ast.Store())], value=copy.deepcopy(v)), call))
             else:
